@@ -95,3 +95,45 @@ func (w *Worker) intrinsicEnv(s *State, f *Frame, name string, args []Value, adv
 	_ = types.Typ
 	return false
 }
+
+// intrinsicEntryEnv: the Sentinel side of the adapter environment (C19). With flag "entryEnv" set,
+// api.Entry returns a fresh entry (flag 1) or a block error (flag 2) and counts the request;
+// SentinelEntry.Exit and api.TraceError/TraceCallee are ghost counters ("exits", "traces", "entries").
+func (w *Worker) intrinsicEntryEnv(s *State, name string, fn *ssa.Function, args []Value, adv func(Value) bool) bool {
+	bump := func(k string) {
+		s.ghost["flag/"+k] = BV(64, ghostInt(s, "flag/"+k)+1)
+	}
+	switch name {
+	case modPrefix + "/api.Entry":
+		bump("entries")
+		if ghostInt(s, "flag/entryEnv") == 2 {
+			be := s.alloc(zero(fn.Signature.Results().At(1).Type().(*types.Pointer).Elem()))
+			return adv(Tuple{Ptr{}, be})
+		}
+		en := s.alloc(zero(fn.Signature.Results().At(0).Type().(*types.Pointer).Elem()))
+		s.ghost["env/entry"] = en
+		return adv(Tuple{en, Ptr{}})
+	case "(*" + modPrefix + "/core/base.SentinelEntry).Exit":
+		if args[0].(Ptr).isNil() {
+			throwRT("invalid memory address or nil pointer dereference (Exit called on a nil *SentinelEntry)")
+		}
+		bump("exits")
+		if sl, ok := args[1].(SliceV); ok && sl.len > 0 {
+			bump("traces") // Exit(WithError(err)) records the error as TraceError does
+		}
+		return adv(nil)
+	case modPrefix + "/api.TraceError":
+		if en, ok := args[0].(Ptr); ok && !en.isNil() {
+			if e, ok := args[1].(Iface); ok && e.t != nil {
+				bump("traces")
+			}
+		}
+		return adv(nil)
+	case modPrefix + "/api.TraceCallee":
+		return adv(nil)
+	case "(*" + modPrefix + "/core/base.SentinelEntry).SetError":
+		bump("traces")
+		return adv(nil)
+	}
+	return false
+}
